@@ -1,7 +1,196 @@
 import SynthVerif.Model.Adsr
 import SynthVerif.Model.Quantizer
 import SynthVerif.Model.Midi
+import Mathlib.Tactic.Linarith
+/-!
+# C20 — Out-of-range parameters are clamped to the nearest legal value
+
+`clampSpec lo hi x`: NaN ↦ `lo`; below `lo` ↦ `lo`; above `hi` ↦ `hi`; otherwise `x` itself.
+`timePeriod_spec` / `sustainLevel_spec`: the two `From<f32>` conversions are exactly this function, for *every*
+binary32 value (case analysis NaN / ±∞ / finite — all 2^32 bit patterns structurally), with bounds
+`[0.001f32, 20]` resp. `[0, 1]` taken from the constants generated from the compiled crate.
+Consequences: result always inside the range, in-range values unchanged, idempotence (so an envelope configured
+with an out-of-range value is *literally the same state* as one configured with the bound).
+`noteNew_clamp`, `channel_clamp`: all `u8` note numbers / channels.
+-/
 namespace C20
-theorem note_new_clamps (n : Nat) : Quantizer.noteNew n = min n 11 := by
+open F32
+
+def clampSpec (lo hi x : F32) : F32 :=
+  match x with
+  | .nan => lo
+  | x => if lt x lo then lo else if lt hi x then hi else x
+
+/-! facts about the generated bounds, evaluated by the kernel -/
+theorem minTime_eq : minTime = .fin minTime.val false := by decide +kernel
+theorem maxTime_eq : maxTime = .fin 20 false := by decide +kernel
+theorem minTime_pos : 0 < minTime.val := by decide +kernel
+theorem minTime_lt_max : minTime.val < 20 := by decide +kernel
+/-- the lower bound is the binary32 nearest to 0.001 -/
+theorem minTime_is_1ms : minTime.val = rnd (1 / 1000) := by decide +kernel
+
+/-- `x.max(lo).min(hi)` for non-zero finite bounds `lo < hi` is the clamp specification -/
+theorem max_min_clamp (a b : ℚ) (ha : a ≠ 0) (hb : b ≠ 0) (hab : a < b) (x : F32) :
+    fmin (fmax x (.fin a false)) (.fin b false) = clampSpec (.fin a false) (.fin b false) x := by
+  have ha' : (a == 0) = false := by simpa using ha
+  have hb' : (b == 0) = false := by simpa using hb
+  have hba : ¬ b < a := not_lt.mpr (le_of_lt hab)
+  cases x with
+  | nan => simp [clampSpec, fmax, fmin, mixedZeros, ha', hb', lt, hba]
+  | inf s => cases s <;> simp [clampSpec, fmax, fmin, mixedZeros, ha', hb', lt, hab, hba]
+  | fin q nz =>
+    by_cases h1 : q < a
+    · simp [clampSpec, fmax, fmin, mixedZeros, ha', hb', lt, h1, hba]
+    · by_cases h2 : b < q
+      · simp [clampSpec, fmax, fmin, mixedZeros, ha', hb', lt, h1, h2]
+      · simp [clampSpec, fmax, fmin, mixedZeros, ha', hb', lt, h1, h2]
+
+theorem timePeriod_spec (x : F32) : timePeriod x = clampSpec minTime maxTime x := by
+  obtain ⟨a, ha⟩ : ∃ a, minTime = .fin a false := ⟨_, minTime_eq⟩
+  have hp : 0 < a := by have := minTime_pos; rwa [ha] at this
+  have hl : a < 20 := by have := minTime_lt_max; rwa [ha] at this
+  unfold timePeriod
+  rw [ha, maxTime_eq]
+  exact max_min_clamp a 20 (ne_of_gt hp) (by norm_num) hl x
+
+theorem sustainLevel_spec (x : F32) (hx : x ≠ negZero) : sustainLevel x = clampSpec zero one x := by
+  cases x with
+  | nan => simp [sustainLevel, clampSpec, fmax, fmin, mixedZeros, lt, zero, one]
+  | inf s => cases s <;> simp [sustainLevel, clampSpec, fmax, fmin, mixedZeros, lt, zero, one]
+  | fin q nz =>
+    simp only [sustainLevel, clampSpec, fmax, zero, one, lt, mixedZeros]
+    by_cases h0 : q = 0
+    · subst h0
+      cases nz
+      · simp [fmin, mixedZeros, lt]
+      · exact absurd rfl hx
+    · have : (q == 0) = false := by simpa using h0
+      simp only [this, Bool.false_and, Bool.false_eq_true, ↓reduceIte]
+      by_cases h1 : q < 0
+      · simp [h1, fmin, mixedZeros, lt]
+      · by_cases h2 : (1:ℚ) < q
+        · simp [h1, h2, fmin, mixedZeros, lt]
+        · simp [h1, h2, fmin, mixedZeros, lt, this]
+
+/-- the one value whose bit pattern changes although it is inside the range: `-0.0` becomes `+0.0` -/
+theorem sustainLevel_negZero : sustainLevel negZero = zero := by decide +kernel
+
+/-! ### consequences -/
+
+theorem clampSpec_range {lo hi : F32} {a b : ℚ} (hlo : lo = .fin a false) (hhi : hi = .fin b false) (hab : a ≤ b)
+    (x : F32) : (clampSpec lo hi x).isFin = true ∧ a ≤ (clampSpec lo hi x).val ∧ (clampSpec lo hi x).val ≤ b := by
+  subst hlo hhi
+  cases x with
+  | nan => simp [clampSpec, hab]
+  | inf s => cases s <;> simp [clampSpec, lt, hab]
+  | fin q nz =>
+    simp only [clampSpec, lt]
+    by_cases h1 : q < a
+    · simp [h1, hab]
+    · by_cases h2 : b < q
+      · simp [h1, h2, hab]
+      · simp [h1, h2]; exact ⟨not_lt.mp h1, not_lt.mp h2⟩
+
+/-- every f32 becomes a time in [0.001, 20] -/
+theorem timePeriod_range (x : F32) :
+    (timePeriod x).isFin = true ∧ minTime.val ≤ (timePeriod x).val ∧ (timePeriod x).val ≤ 20 := by
+  rw [timePeriod_spec]
+  exact clampSpec_range minTime_eq maxTime_eq (le_of_lt minTime_lt_max) x
+
+/-- every f32 becomes a sustain level in [0, 1] -/
+theorem sustainLevel_range (x : F32) :
+    (sustainLevel x).isFin = true ∧ 0 ≤ (sustainLevel x).val ∧ (sustainLevel x).val ≤ 1 := by
+  by_cases hx : x = negZero
+  · subst hx; rw [sustainLevel_negZero]; simp [zero]
+  · rw [sustainLevel_spec x hx]
+    exact clampSpec_range (a := 0) (b := 1) rfl rfl (by norm_num) x
+
+/-- a value already inside the range is unchanged (bit for bit) -/
+theorem timePeriod_inside (x : F32) (h1 : le minTime x = true) (h2 : le x maxTime = true) : timePeriod x = x := by
+  rw [timePeriod_spec, minTime_eq, maxTime_eq] at *
+  cases x with
+  | nan => simp [le] at h1
+  | inf s => cases s <;> simp_all [le]
+  | fin q nz =>
+    simp only [le, decide_eq_true_eq] at h1 h2
+    simp [clampSpec, lt, not_lt.mpr h1, not_lt.mpr h2]
+
+theorem sustainLevel_inside (x : F32) (hx : x ≠ negZero) (h1 : le zero x = true) (h2 : le x one = true) :
+    sustainLevel x = x := by
+  rw [sustainLevel_spec x hx]
+  cases x with
+  | nan => simp [le, zero] at h1
+  | inf s => cases s <;> simp_all [le, zero, one]
+  | fin q nz =>
+    simp only [le, zero, one, decide_eq_true_eq] at h1 h2
+    simp [clampSpec, lt, zero, one, not_lt.mpr h1, not_lt.mpr h2]
+
+/-- the nearer bound outside, and a bound for NaN -/
+theorem timePeriod_outside (x : F32) :
+    (lt x minTime = true → timePeriod x = minTime) ∧ (lt maxTime x = true → timePeriod x = maxTime) ∧
+    (x = .nan → timePeriod x = minTime) := by
+  rw [timePeriod_spec]
+  refine ⟨?_, ?_, ?_⟩
+  · intro h; cases x <;> simp_all [clampSpec]
+  · intro h
+    have hl := minTime_lt_max
+    rw [minTime_eq, maxTime_eq] at *
+    cases x with
+    | nan => simp [lt] at h
+    | inf s => cases s <;> simp_all [clampSpec, lt]
+    | fin q nz =>
+      simp only [lt, decide_eq_true_eq] at h
+      simp only [val_fin] at hl
+      have : ¬ q < minTime.val := by linarith
+      simp [clampSpec, lt, this, h]
+  · intro h; subst h; rfl
+
+/-- configuring with any value is the same as configuring with its clamped value: conversion is idempotent,
+so "configured with an out-of-range value" and "configured with the bound" are the same envelope state -/
+theorem timePeriod_idem (x : F32) : timePeriod (timePeriod x) = timePeriod x := by
+  obtain ⟨hf, h1, h2⟩ := timePeriod_range x
+  apply timePeriod_inside
+  · rw [minTime_eq]; cases h : timePeriod x <;> simp_all [le]
+  · rw [maxTime_eq]; cases h : timePeriod x <;> simp_all [le]
+
+theorem sustainLevel_idem (x : F32) : sustainLevel (sustainLevel x) = sustainLevel x := by
+  obtain ⟨hf, h1, h2⟩ := sustainLevel_range x
+  by_cases hz : sustainLevel x = negZero
+  · -- impossible: the result is never -0
+    exfalso
+    by_cases hx : x = negZero
+    · subst hx; rw [sustainLevel_negZero] at hz; exact absurd hz (by decide)
+    · rw [sustainLevel_spec x hx] at hz
+      cases x with
+      | nan => simp [clampSpec, zero, negZero] at hz
+      | inf s => cases s <;> simp [clampSpec, lt, zero, one, negZero] at hz
+      | fin q nz =>
+        simp only [clampSpec, lt, zero, one, negZero] at hz
+        by_cases c1 : q < 0
+        · simp [c1] at hz
+        · by_cases c2 : (1:ℚ) < q
+          · simp [c1, c2] at hz
+          · simp only [c1, c2, decide_false, Bool.false_eq_true, ↓reduceIte, F32.fin.injEq] at hz
+            obtain ⟨rfl, rfl⟩ := hz
+            exact hx rfl
+  · apply sustainLevel_inside _ hz
+    · cases h : sustainLevel x <;> simp_all [le, zero]
+    · cases h : sustainLevel x <;> simp_all [le, one]
+
+theorem envelope_same_config (a : Adsr) (x : F32) :
+    a.setInput (.attack (timePeriod x)) = a.setInput (.attack (timePeriod (timePeriod x))) ∧
+    a.setInput (.sustain (sustainLevel x)) = a.setInput (.sustain (sustainLevel (sustainLevel x))) := by
+  rw [timePeriod_idem, sustainLevel_idem]; exact ⟨rfl, rfl⟩
+
+/-- scale note numbers above 11 act as 11 (all `u8` values and beyond) -/
+theorem noteNew_clamp (n : Nat) : Quantizer.noteNew n = min n 11 := by
   unfold Quantizer.noteNew; split <;> omega
+
+/-- MIDI channels above 15 act as 15 -/
+theorem channel_clamp (c : Nat) : (Midi.new c).channel = min c 15 := rfl
+
+/-- non-vacuity: a few concrete conversions -/
+example : timePeriod (ofBits 0x42c80000) = maxTime ∧ timePeriod (ofBits 0) = minTime ∧
+    timePeriod (ofBits 0x3f000000) = ofBits 0x3f000000 ∧ sustainLevel (ofBits 0xbf800000) = zero := by decide +kernel
+
 end C20
